@@ -41,10 +41,14 @@ def render(run) -> str:
         o.append('LAZYCOMP 1')
     if run.get('idquery'):
         o.append(f"IDQUERY {run['idquery']}")
+    if run.get('sibling'):
+        o.append(f"SIBLING {run['sibling']}")
+    if run.get('reentry'):
+        o.append(f"REENTRY {run['reentry']}")
     if run.get('slowlog'):
         o.append(f"SLOWLOG {run['slowlog']}")
     for t in run['tasks']:
-        o.append(f"TASK {t['name']}")
+        o.append(f"TASK {t['name']}" + (' pre' if t.get('pre') else ''))
         for op in t['ops']:
             o.append(' '.join(str(x) for x in op))
     for side, ev, reply, wish, follow in run['scripts']:
@@ -66,6 +70,8 @@ def vary_env(rng: Rng, run):
     run['lazycomp'] = 1 if r.chance(40) else 0
     if run.get('clients', 0) >= 2 and r.chance(50):
         run['idquery'] = r.between(1, run['clients'] - 1)
+    if r.chance(30):
+        run['sibling'] = r.between(1, 2)   # a second, independent instance of the same shell type lives in the process
     return run
 
 
@@ -288,6 +294,14 @@ def gen_c10_runs(rng: Rng, mb, n):
                     'kind': 'one-unbound', 'unbinds': [[side, ev, cl]]})
         vary_env(Rng(rng.state, 'unbound'), run)
         runs.append(run)
+    if mb.mc and mb.mc['out_events'] and n_clients > 0:
+        # fault kind "user callback re-enters the shell": the user's log sink registers a client of its own ('monitor', never
+        # bound) when it receives its k-th message - during the registration of the others, or whenever else the shell logs
+        for k in sorted({1, 2, rng.between(1, 2 * n_clients), 2 * n_clients, 2 * n_clients + 1, 2 * n_clients + 2}):
+            run = new_run(f'reentry-{k}', origin)
+            run.update({'clients': n_clients, 'client_names': names, 'parent': rng.below(2), 'probes': 3, 'policy': POL_DEFAULT,
+                        'kind': 'reentrant-log', 'reentry': k})
+            runs.append(run)
     return runs
 
 
@@ -340,6 +354,11 @@ def gen_c04_run(rng: Rng, mb, rid, faulty):
         else:
             ops.append(['W', rng.between(1, 5)])
     run['tasks'] = [{'name': 'drv', 'ops': ops}]
+    early = Rng(rng.state, 'early')
+    if len(ops) >= 2 and early.chance(25):
+        # the first few calls are made after the ports are bound but before the user calls FinalConstruct
+        k = early.between(1, min(4, len(ops) - 1))
+        run['tasks'] = [{'name': 'early', 'ops': ops[:k], 'pre': 1}, {'name': 'drv', 'ops': ops[k:]}]
     scripts = []
     for e in ih:
         is_claim = e['idx'] == mc['claim']
